@@ -57,6 +57,11 @@ def run_models(ctx, rng, N):
             p1 = n + 2
         X = Z.data2d(rng, n, p1, "x", cplx=sp.cplx, red=sp.ordered)
         Y = Z.data2d(rng, n, p2, "y", cplx=sp.cplx, red=sp.ordered)
+        # lagged / differently stamped second field: rows are paired by position, the sample labels of Y differ
+        lag = [None, "shifted", "disjoint"][int(rng.integers(0, 3))] if rng.random() < 0.4 else None
+        if lag:
+            Y = Y.assign_coords(time=Y.time.values + (2 if lag == "shifted" else 1000))
+        ctx.dist["c09:sample-labels-of-Y:%s" % (lag or "equal")] += 1
         use_pca = True if wide else bool(rng.random() < 0.5)
         npca = rng.choice(["all", "int", "frac"]) if use_pca else "all"
         n_pca = "all" if npca == "all" else (int(min(p1, p2, n - 1)) if npca == "int" else 0.999999)
@@ -69,7 +74,7 @@ def run_models(ctx, rng, N):
             alpha = {"MCA": [1, 1], "ComplexMCA": [1, 1], "HilbertMCA": [1, 1], "CCA": [0, 0], "RDA": [0, 1]}[name]
         rank = min(p1, p2, n - 1)
         k = int(rng.integers(1, max(2, rank)))
-        replay = dict(kind="cross", cls=name, kw=kw, k=k, X=np.asarray(X.values), Y=np.asarray(Y.values))
+        replay = dict(kind="cross", cls=name, kw=kw, k=k, X=np.asarray(X.values), Y=np.asarray(Y.values), y_time=np.asarray(Y.time.values))
         ctx.case(("c09", name, n, p1, p2, k, str(kw), i), nontrivial=n >= 6, tag="%s/alpha=%s/pca=%s" % (name, alpha, npca if use_pca else "off"),
                  sample=dict(cls=name, shapes=[[n, p1], [n, p2]], k=k, kw=kw))
         try:
